@@ -110,7 +110,7 @@ def parseTables (j : Json) : R Tables := do
   let ser ← (← fldArr j "ser").mapM (fun e => do
     let d ← topJV (← fld e "dict")
     let chunks ← fldStrs e "chunks"
-    return (render d, chunks.map (fun s => s.toUTF8.toList)))
+    return (render d, chunks.map unhex))
   let imp ← (← fldArr j "imp").mapM (fun e => do
     return ((← fldStr e "name", render (toJV (← fld e "json"))), ← optStr (← fld e "val")))
   let exp ← (← fldArr j "exp").mapM (fun e => do
@@ -131,7 +131,7 @@ def mkEnv (t : Tables) : Env String JsonNumber V :=
 /-! ### requests -/
 def parseFault (j : Json) : R (Option Fault) :=
   if j.isNull then pure none else do
-    return some ⟨← fldNat j "idx", unhex (← fldStr j "part")⟩
+    return some ⟨← fldNat j "idx", unhex (← fldStr j "part"), (← fldStrs j "after").map unhex⟩
 
 def parseParam (j : Json) : R (Param V) := do
   return { name := ← fldStr j "name", persistent := ← fldBool j "persistent", auto := ← fldBool j "auto",
